@@ -7,7 +7,17 @@ use crate::refimpl::mcep_logspec;
 use crate::rng::{mix, Rng};
 use jbonsai::vocoder::Vocoder;
 
-pub const RATES: [usize; 6] = [8000, 16000, 22060, 44100, 48000, 96000];
+pub const RATES: [usize; 6] = [8000, 16000, 22050, 44100, 48000, 96000];
+
+/// the common rates, and in one case of seven any rate of the quantifier's range 8k..96k
+/// (a multiple of 20: the pulse-response measurement needs an integer period at F0 = 20 Hz)
+pub fn rate_pick(rng: &mut Rng, idx: usize) -> usize {
+    if idx % 7 == 6 {
+        20 * rng.range(400, 4800)
+    } else {
+        RATES[idx % RATES.len()]
+    }
+}
 
 /// max over a 512-point grid of |sum_{m>=1} c_m cos(m warp(w))|
 pub fn shape_of(c: &[f64], alpha: f64) -> f64 {
@@ -63,7 +73,7 @@ pub fn run(ctx: &mut Ctx) {
     ctx.run_cases("spectrum", n, false, |ctx, rng, idx| {
         let order = if idx % 8 == 0 { *rng.pick(&[2usize, 3, 40, 41]) } else { rng.range(2, 41) };
         let alpha = alpha_pick(rng);
-        let rate = RATES[idx % RATES.len()];
+        let rate = rate_pick(rng, idx);
         let target = if rng.chance(0.2) { 2.0 } else { rng.uniform(0.05, 2.0) };
         let mut c = random_cepstrum(rng, order, alpha, target);
         // the gain term is unconstrained by the property: very small and very large gains too
@@ -74,6 +84,27 @@ pub fn run(ctx: &mut Ctx) {
                 _ => rng.uniform(-10.0, 6.0),
             };
         }
+        // corners of the gain term: c0 exactly 0, and c0 such that the filter's own gain
+        // coefficient b0 = c0 - alpha * b1 is exactly 0 (b from the recursion b_m = c_m - alpha b_{m+1})
+        let (alpha, c) = {
+            let mut alpha = alpha;
+            match idx % 32 {
+                5 => {
+                    alpha = 0.0;
+                    c[0] = 0.0;
+                }
+                13 => c[0] = 0.0,
+                21 => {
+                    let mut b = c.clone();
+                    for m in (0..order - 1).rev() {
+                        b[m] = c[m] - alpha * b[m + 1];
+                    }
+                    c[0] = alpha * b[1];
+                }
+                _ => {}
+            }
+            (alpha, c)
+        };
         let shape = shape_of(&c, alpha);
         let p = rate / 20;
         let voc = Vocoder::new(order, 0, 0, false, rate, alpha, 0.0, 1.0, p);
